@@ -108,7 +108,10 @@ func runC16(c *core.Ctx, idx int) {
 	def := &schema.StoreDef{Type: "widgets", BasePath: []string{"stores"}, Ext: true, System: true,
 		Fields: []schema.Field{{Name: "name", Kind: schema.KStr}, {Name: "code", Kind: schema.KStr}, {Name: "labels", Kind: schema.KList}},
 		Unique: []schema.UniqueDef{{Field: "code", Nullable: true}}, SetIdx: []string{"labels"}}
-	kid := &schema.StoreDef{Type: "widgets", Parent: "widgets", ChildPath: []string{"kid"}, Fields: []schema.Field{{Name: "extra", Kind: schema.KStr}}}
+	// the child store has an index of its own (kcode, derived from the id like code): it goes when the child data goes,
+	// and only then - not when a delete is refused further up
+	kid := &schema.StoreDef{Type: "widgets", Parent: "widgets", ChildPath: []string{"kid"}, Fields: []schema.Field{{Name: "extra", Kind: schema.KStr}, {Name: "kcode", Kind: schema.KStr}},
+		Unique: []schema.UniqueDef{{Field: "kcode", Nullable: true}}}
 	sc := schema.Build([]*schema.StoreDef{def, kid})
 	kst := sc.St("widgets/kid")
 	path := c.TempFile("c16")
@@ -225,6 +228,7 @@ func runC16(c *core.Ctx, idx int) {
 			if op.Child {
 				target = kst
 				e.V["extra"] = op.Extra
+				e.V["kcode"] = "kc-" + op.Id
 			}
 			e.Ext.Id = op.Id
 			e.Ext.IsSystem = op.Flag
@@ -480,6 +484,10 @@ func runC16(c *core.Ctx, idx int) {
 				c.Violationf("C16 set index differs from the entities after the transaction", map[string]any{"history": tailC16(hist, 5)}, "labels[shared] = %q, entities %q", shared, exp)
 			}
 			for _, id := range ids {
+				kholder := string(kst.Unique["kcode"].Read(tx, []byte("kc-"+id)))
+				if m, live := model[id]; (live && m.Child && kholder != id) || ((!live || !m.Child) && kholder != "") {
+					c.Violationf("C16 the child store's unique index differs from the entities after the transaction", map[string]any{"history": tailC16(hist, 5), "id": id}, "kcode[kc-%s] = %q, entity present %v with child data %v", id, kholder, live, live && m.Child)
+				}
 				holder := string(st.Unique["code"].Read(tx, []byte("code-"+id)))
 				if _, live := model[id]; (live && holder != id) || (!live && holder != "") {
 					c.Violationf("C16 unique index differs from the entities after the transaction", map[string]any{"history": tailC16(hist, 5), "id": id}, "code[code-%s] = %q, entity present %v", id, holder, live)
